@@ -663,6 +663,7 @@ func aliasReflective(w *World) {
 	ctx, cancel := context.WithCancel(context.Background())
 	defer cancel()
 	readOptType := reflect.TypeOf((*resource.ReadOption)(nil)).Elem()
+	var lastArgs []reflect.Value
 	call := func(m reflect.Method, withOpts bool) (res []reflect.Value, panicked bool) {
 		defer func() {
 			if r := recover(); r != nil {
@@ -683,8 +684,12 @@ func aliasReflective(w *World) {
 				continue
 			}
 			v, _ := synthArg(m.Type.In(a), p, ctx)
+			if pm, isMsg := v.Interface().(proto.Message); isMsg && p.n(2) == 0 {
+				poolStrings(pm.ProtoReflect(), p) // ids that the string arguments of other methods can address
+			}
 			args = append(args, v)
 		}
+		lastArgs = args
 		return m.Func.Call(args), false
 	}
 	// stored state through the model's own read-only getters (no channels)
@@ -759,6 +764,25 @@ func aliasReflective(w *World) {
 				task.Yield("after-pull")
 				task.Yield("after-pull")
 			}
+			if !x.readOnly {
+				// the caller goes on using (and changing) the messages it passed in: neither the store nor anything handed
+				// out so far may follow
+				var mine []proto.Message
+				for _, a := range lastArgs[1:] {
+					collectMsgs(a, 1, &mine)
+				}
+				if len(mine) > 0 {
+					stored := getters()
+					for _, m := range mine {
+						scribbleReflect(m.ProtoReflect(), 3)
+					}
+					w.Fault("caller-mutate")
+					if after := getters(); after != stored {
+						w.Violate("caller-mutation-visible", fmt.Sprintf("after %s returned, the caller changed the message(s) it had passed in and the model's stored state followed\n  before: %s\n  after:  %s", desc, stored, after), mon.key)
+						return
+					}
+				}
+			}
 			if x.readOnly {
 				if after := getters(); after != before {
 					w.Violate("read-changed-store", fmt.Sprintf("%s (a read-only method) changed what the model's getters return\n  before: %s\n  after:  %s", desc, before, after), mon.key)
@@ -776,6 +800,67 @@ func aliasReflective(w *World) {
 	w.MarkNontrivial()
 	cancel()
 	w.Run()
+}
+
+// poolStrings sets top-level string fields to ids from the small pool that string arguments are drawn from.
+func poolStrings(m protoreflect.Message, p *prng) {
+	fds := m.Descriptor().Fields()
+	for i := 0; i < fds.Len(); i++ {
+		fd := fds.Get(i)
+		if fd.Kind() == protoreflect.StringKind && !fd.IsList() && !fd.IsMap() && p.n(2) == 0 {
+			m.Set(fd, protoreflect.ValueOfString([]string{"a", "b", "m1"}[p.n(3)]))
+		}
+	}
+}
+
+// scribbleReflect changes every populated scalar of m (recursively), the way a caller reusing its request would.
+func scribbleReflect(m protoreflect.Message, depth int) {
+	m.Range(func(fd protoreflect.FieldDescriptor, v protoreflect.Value) bool {
+		bump := func(v protoreflect.Value) protoreflect.Value {
+			switch fd.Kind() {
+			case protoreflect.BoolKind:
+				return protoreflect.ValueOfBool(!v.Bool())
+			case protoreflect.Int32Kind, protoreflect.Sint32Kind, protoreflect.Sfixed32Kind:
+				return protoreflect.ValueOfInt32(int32(v.Int()) + 1000)
+			case protoreflect.Int64Kind, protoreflect.Sint64Kind, protoreflect.Sfixed64Kind:
+				return protoreflect.ValueOfInt64(v.Int() + 1000)
+			case protoreflect.Uint32Kind, protoreflect.Fixed32Kind:
+				return protoreflect.ValueOfUint32(uint32(v.Uint()) + 1000)
+			case protoreflect.Uint64Kind, protoreflect.Fixed64Kind:
+				return protoreflect.ValueOfUint64(v.Uint() + 1000)
+			case protoreflect.FloatKind:
+				return protoreflect.ValueOfFloat32(float32(v.Float()) + 1000)
+			case protoreflect.DoubleKind:
+				return protoreflect.ValueOfFloat64(v.Float() + 1000)
+			case protoreflect.StringKind:
+				return protoreflect.ValueOfString(v.String() + "-changed-by-caller")
+			case protoreflect.BytesKind:
+				return protoreflect.ValueOfBytes(append([]byte("changed"), v.Bytes()...))
+			}
+			return v
+		}
+		switch {
+		case fd.IsMap():
+		case fd.IsList():
+			l := v.List()
+			for i := 0; i < l.Len(); i++ {
+				if fd.Kind() == protoreflect.MessageKind {
+					if depth > 0 {
+						scribbleReflect(l.Get(i).Message(), depth-1)
+					}
+				} else {
+					l.Set(i, bump(l.Get(i)))
+				}
+			}
+		case fd.Kind() == protoreflect.MessageKind || fd.Kind() == protoreflect.GroupKind:
+			if depth > 0 {
+				scribbleReflect(v.Message(), depth-1)
+			}
+		default:
+			m.Set(fd, bump(v))
+		}
+		return true
+	})
 }
 
 // resultMessage finds the proto message type a method hands out: *T, []*T, or a channel of structs / messages carrying one.
